@@ -1,6 +1,7 @@
 import Clikit.Drv.Util
 import Clikit.Model.Wrap
 import Clikit.Model.Table
+import Clikit.Model.TableFmt
 namespace Clikit.Drv.C14
 open Lean Clikit.Drv Clikit.Table
 
@@ -33,12 +34,44 @@ def wrapTrace (cols : List Column) (outs : List ColOut) : List Json :=
     | some w => (col.filter (fun c => c.len > w)).map fun c =>
         Json.arr #[jStr c.text, jNat w, jStrs (Clikit.Wrap.wrap w c.text)]
 
+/-- the answer of `c14.render` / `c14.render_fmt` for the table `t` of VISIBLE cells -/
+def renderAnswer (st : Clikit.Gen.C14.TableStyle) (given : List Nat) (t : Table) (width indent : Nat) : Json :=
+  let res : Except Err Json := do
+    let outs ← if t.rows.isEmpty then pure [] else layout floatShare st t width indent
+    let lines ← render floatShare st given t width indent
+    pure (Json.mkObj [("lines", jStrs lines), ("column_lengths", jList jNat (outs.map (·.width))),
+                      ("wraps", .arr (wrapTrace (initRows t.n t.allRows) outs).toArray)])
+  let wf := Json.mkObj [("feasible", .bool (feasibleB st t width indent)),
+                        ("aligns", .bool (decide (given.length ≤ t.n))),
+                        ("style_ok", .bool (styleOkB st t.header.isSome)),
+                        ("n_pos", .bool (decide (1 ≤ t.n))),
+                        ("right_solid", .bool (rightSolidB st)),
+                        ("all", .bool (wfB st given t width indent))]
+  (jExcept id res).setObjVal! "wf" wf
+
+/-- the table, alignments, width and indentation of a rendering request -/
+def tableOf (j : Json) : R (Table × List Nat × Nat × Nat) := do
+  let header ← match fOpt j "header" with
+    | none => pure none
+    | some h => (strList h).map some
+  let rows ← (← fArr j "rows").toList.mapM strList
+  let n ← fNat j "n"
+  let given ← natList (← field j "alignments")
+  let width ← fNat j "width"
+  let indent ← fNat j "indent"
+  if rows.any (fun r => r.length != n) || (header.map (fun h => h.length != n)).getD false then
+    .error "rows must have n cells"
+  else
+    return ({ header := header, rows := rows, n := n }, given, width, indent)
+
 /--
 * `c14.wrap {text, width}` -> the lines of the `textwrap.wrap` model (or `ValueError`);
 * `c14.render {style, header_format?, header: [..]|null, rows: [[..]], n, alignments: [..],
   width, indent}` -> `{lines, column_lengths, wraps}` (or the exception name), plus the field `wf`:
   the hypotheses of the rendering theorems of Props/C14 decided for this style, table, alignment list
   and width (`Props.C14.wf_decides`);
+* `c14.render_fmt {.. as c14.render, cells with their style tags .., styles: [tag, ..]}` -> the same for the
+  table as a formatter knowing exactly these tags shows it, plus `visible` (the visible cells);
 * `c14.share {l, a, w}` -> `int(round(l / a * w))` as the executable model computes it.
 -/
 def handle (m : String) (j : Json) : Option (R Json) :=
@@ -54,30 +87,20 @@ def handle (m : String) (j : Json) : Option (R Json) :=
       if a = 0 then .error "a = 0" else return jNat (floatShare l a w)
   | "c14.render" => some do
       let st ← styleOf j
-      let header ← match fOpt j "header" with
-        | none => pure none
-        | some h => (strList h).map some
-      let rows ← (← fArr j "rows").toList.mapM strList
-      let n ← fNat j "n"
-      let given ← natList (← field j "alignments")
-      let width ← fNat j "width"
-      let indent ← fNat j "indent"
-      let t : Table := { header := header, rows := rows, n := n }
-      if rows.any (fun r => r.length != n) || (header.map (fun h => h.length != n)).getD false then
-        .error "rows must have n cells"
-      else
-        let res : Except Err Json := do
-          let outs ← if t.rows.isEmpty then pure [] else layout floatShare st t width indent
-          let lines ← render floatShare st given t width indent
-          pure (Json.mkObj [("lines", jStrs lines), ("column_lengths", jList jNat (outs.map (·.width))),
-                            ("wraps", .arr (wrapTrace (initRows t.n t.allRows) outs).toArray)])
-        let wf := Json.mkObj [("feasible", .bool (feasibleB st t width indent)),
-                              ("aligns", .bool (decide (given.length ≤ t.n))),
-                              ("style_ok", .bool (styleOkB st t.header.isSome)),
-                              ("n_pos", .bool (decide (1 ≤ t.n))),
-                              ("right_solid", .bool (rightSolidB st)),
-                              ("all", .bool (wfB st given t width indent))]
-        return (jExcept id res).setObjVal! "wf" wf
+      let (t, given, width, indent) ← tableOf j
+      return renderAnswer st given t width indent
+  | "c14.render_fmt" => some do
+      -- cells WITH their style tags and the tags the formatter of the I/O knows at the time of this rendering
+      -- (`styles`: lowered names of its style set + the inline specifications that are styles): the model removes
+      -- the format itself (Model/TableFmt.lean, through the formatter model of C11) and renders the visible table
+      let st ← styleOf j
+      let (t, given, width, indent) ← tableOf j
+      let known ← strList (← field j "styles")
+      match visibleTable (knownResolver known) t with
+      | .error e => return (jErr e).setObjVal! "wf" .null
+      | .ok v =>
+        return (renderAnswer st given v width indent).setObjVal! "visible"
+          (jList jStrs v.allRows)
   | _ => none
 
 end Clikit.Drv.C14
